@@ -5,7 +5,10 @@ import (
 	"encoding/json"
 	"fmt"
 	"os"
+	"runtime"
 	"runtime/debug"
+	"strconv"
+	"sync/atomic"
 	"strings"
 	"testing"
 	"testing/synctest"
@@ -30,8 +33,57 @@ type WorkerArgs struct {
 	VarRem    int    `json:"var_rem,omitempty"`
 }
 
+// memory guard: the sandbox has no memory limit, and code under test that spins
+// or allocates without reaching a scheduling point is not bounded by the
+// director's step budget. A real-time watchdog outside the bubbles ends the
+// worker (exit 3 = infrastructure, never a violation) and names the run.
+var curRun atomic.Uint64
+var curStart atomic.Int64
+var curSpec atomic.Value // RunSpec of the run in progress (dumped by the watchdog)
+
+func dumpCurSpec() {
+	if d := os.Getenv("VERIF_WATCHDOG_DUMP"); d != "" {
+		if sp, ok := curSpec.Load().(RunSpec); ok {
+			b, _ := json.Marshal(sp)
+			_ = os.WriteFile(d, b, 0o644)
+		}
+	}
+}
+
+func startWatchdog() {
+	limitMB := 4096
+	if v, err := strconv.Atoi(os.Getenv("VERIF_MEM_MB")); err == nil && v > 0 {
+		limitMB = v
+	}
+	maxRunS := 120
+	if v, err := strconv.Atoi(os.Getenv("VERIF_RUN_S")); err == nil && v > 0 {
+		maxRunS = v
+	}
+	go func() {
+		var ms runtime.MemStats
+		for {
+			time.Sleep(500 * time.Millisecond)
+			runtime.ReadMemStats(&ms)
+			if ms.HeapAlloc > uint64(limitMB)<<20 {
+				fmt.Fprintf(os.Stderr, "WATCHDOG: worker heap %d MiB exceeds %d MiB during run index=%d\n", ms.HeapAlloc>>20, limitMB, curRun.Load())
+				dumpCurSpec()
+				os.Exit(3)
+			}
+			if st := curStart.Load(); st != 0 && time.Now().UnixNano()-st > int64(maxRunS)*1e9 {
+				fmt.Fprintf(os.Stderr, "WATCHDOG: run index=%d did not finish within %d s of real time\n", curRun.Load(), maxRunS)
+				dumpCurSpec()
+				os.Exit(3)
+			}
+		}
+	}()
+}
+
 // runOne executes one run in a fresh synctest bubble.
 func runOne(t *testing.T, spec RunSpec) (res *RunResult) {
+	curRun.Store(spec.Index)
+	curSpec.Store(spec)
+	curStart.Store(time.Now().UnixNano())
+	defer curStart.Store(0)
 	var ch *Choices
 	if spec.Replay {
 		ch = NewReplayChoices(spec.Seed, spec.Index, spec.Tapes)
@@ -85,6 +137,7 @@ func TestSim(t *testing.T) {
 	if err := json.Unmarshal([]byte(raw), &wa); err != nil {
 		t.Fatalf("bad VERIF_WORKER: %v", err)
 	}
+	startWatchdog()
 	if wa.Serve {
 		serve(t)
 		return
